@@ -211,7 +211,7 @@ PROPS = {
                 "with GOMEMLIMIT=64MiB, ulimit -v and a 20 s timeout, far from the budget on either side, incl. the former overflow witnesses. "
                 "d: recursion of depth 0..39 run with MaxDepth around the measured need and in 10..310: outcome, counter at recovery, counter after Reset (150). "
                 "non-trivial = request above 256 objects (g) / every e, c, d case. "
-                "bounded suite (RUNTIME part, measurements): ~65 (quick) / ~450 (thorough) programs, each in its own child process (re-exec of the harness, "
+                "bounded suite (RUNTIME part, measurements): ~140 (quick) / ~1100 (thorough) programs, each in its own child process (re-exec of the harness, "
                 "GOMEMLIMIT=256MiB, ulimit -v 6 GiB, kill after deadline+25 s, up to 8 at a time; a killed/dead/slow run is repeated once alone) through "
                 "repl.EvalStringWithOption with MaxDepth in {10,100,1000,10000,default} and MaxDuration in {1ms,10ms,100ms,1s} (0 = none for the recursion and one "
                 "concatenation family). Families: non-terminating loops (empty, counting, nested, printing, counted 1<<62, calling), unbounded recursion (self, with "
@@ -221,7 +221,13 @@ PROPS = {
                 "literals, a left-deep + chain; blocks 1000..4000; thorough: 10^6), values with shared structure (a=[a,a] 8..15 times, then a==a / println(a)), huge count x EMPTY operand under a 100 ms / 1 s deadline "
                 "([]*N, x[3:3]*N, (0:0)*N, (k:k)*N, \"\"*N, \"abc\"[3:3]*N, and counted loops of N merges of {} / []; N in {2^40, 2^62, 2^62+1, 2^63-1}; these "
                 "children are killed 8 s after the deadline, at most 2 killed runs are repeated), counts whose product with the operand length wraps "
-                "([1,2,3,4]*N, [1,2]*N, \"abcd\"*N), sleep(10). Measured per run: exit status, result kind, wall time inside "
+                "([1,2,3,4]*N, [1,2]*N, \"abcd\"*N), sleep(10); and ~45 programs that reach the guards through LIBRARY FUNCTIONS, BUILTINS and MACROS "
+                "(harness/cmd/harness/bounded_ext.go): loops printing / logging 1 MB per iteration (the output is buffered), loops of eval(), of caught errors and of caught "
+                "non-terminating calls; unbounded recursion through eval() at every level (100 ms deadline, depth limits, both); catch around unbounded recursion; growth in a loop "
+                "through image.new (host-side objects), sprintf, join, str; image.new of 1024, 1025, 2^31, 2^62 pixels a side; a format width of 2*10^9; one call on an operand near "
+                "the budget whose result is a multiple of it (split per character / per separator, runes, str, json, base64 on 10^7..10^8 elements/bytes) and a small one each; regsub "
+                "on sizes that fit; nested text COMPUTED by the program and parsed by eval / unjson (balanced 10^4..3*10^4, unclosed 100..2*10^4: two parse errors per level); "
+                "n nested uses of a macro that doubles its argument (2..11 and 24..31), a macro that expands to itself. Measured per run: exit status, result kind, wall time inside "
                 "EvalStringWithOption, peak RSS (VmHWM). Statement (lean/Grol/BoundedSuite.lean): exit 0, wall <= deadline + 3000 ms, RSS <= 4 x limit, result kind allowed "
                 "for the family (loops: deadline; unbounded recursion: depth, or deadline when one is set; huge operands: refused or within the budget; never a stray Go panic). "
                 "The driver predicts the result kind from Grol.Memory / Grol.Depth where it can (compared: agree) — wall time and RSS are never predicted.",
@@ -238,8 +244,8 @@ PROPS = {
             "MakeObjectSlice calls, in order) and C09.guarded_loops_guards pins that text",
             "MEASURED, not proved (bounded suite): wall-clock time after the deadline, peak RSS, survival of the process (Go stack growth, GC behaviour, scheduler latency); "
             "thresholds are the named constants slackMs, rssFactor, memLimitKB of lean/Grol/BoundedSuite.lean; timing depends on the machine and its load",
-            "NOT covered: loops inside extensions/, ast/ (printer), parser/, lexer/ and the Go standard library; the other MustBeOk call sites in extensions (str functions) and "
-            "object (function parameters/body); programs outside the listed families"],
+            "NOT covered by a model or theorem (runtime measurements of the listed families only): loops inside extensions/, ast/ (printer), parser/, lexer/ and the Go standard "
+            "library; the MustBeOk call sites in extensions (split, runes, join, image.new) and object (function parameters/body); programs outside the listed families"],
         "assumptions": ["one evaluation step that is not polled may cost time proportional to the memory budget (a+a on a 64 MiB array under GC pressure: 1.2 s measured), "
                         "which is why the slack is 3 s and not milliseconds",
                         "the eval model (lean/Grol/Eval/Ops.lean) was not changed for the new guard on string + string: it only fires above 4096 bytes with less free memory than the "
